@@ -29,6 +29,7 @@ RULE = ('in-process runs of small worlds under every subset of {--gc a [b [c]], 
         'showwarning and sys.stdout/sys.stderr before == after, whether run_internal returned or '
         'raised. distinct = option subset x abort kind x hook-site digest; non-trivial = at '
         'least one state-changing option and the run reached the test phase')
+RULE += (' ' + 'Later additions: runs that only list or are refused by the option check; -j N runs whose children all fail, under line-level pre-emption of the worker threads; a trace function installed before the run; gc state set before the run; sys.monitoring profiler slot.')
 GCFLAGS = ['DEBUG_UNCOLLECTABLE', 'DEBUG_SAVEALL', 'DEBUG_LEAK']
 ABORTS = ['normal', 'failing', 'testSetUp-raises', 'testTearDown-raises', 'both-hooks-raise',
           'kbd-test', 'kbd-layer-hook', 'stop-on-error', 'post-mortem',
